@@ -113,3 +113,138 @@ theorem sel_lt (s : PySlice) (n : Nat) (hv : s.Valid) : ∀ i ∈ s.sel n, i < n
 
 end PySlice
 end Nb
+
+/-! ### additions for C06 (rangeInts algebra, list/Option helpers, whole-axis slices) -/
+namespace Nb
+
+theorem nat_eq_of_lt_iff {x y : Nat} (h : ∀ k, k < x ↔ k < y) : x = y := by
+  have h1 := h x; have h2 := h y; omega
+
+@[simp] theorem rangeInts_length (a c : Int) (L : Nat) : (rangeInts a c L).length = L := by
+  simp [rangeInts]
+
+theorem rangeInts_getElem (a c : Int) (L k : Nat) (h : k < (rangeInts a c L).length) :
+    (rangeInts a c L)[k] = a + (k : Int) * c := by simp [rangeInts]
+
+@[simp] theorem rangeInts_zero (a c : Int) : rangeInts a c 0 = [] := rfl
+
+theorem rangeInts_congr {a c a' c' : Int} {L L' : Nat} (hL : L = L')
+    (h : ∀ k : Nat, k < L → a + (k : Int) * c = a' + (k : Int) * c') :
+    rangeInts a c L = rangeInts a' c' L' := by
+  subst hL
+  apply List.ext_getElem (by simp)
+  intro k h1 h2
+  rw [rangeInts_getElem, rangeInts_getElem]
+  exact h k (by simpa using h1)
+
+theorem rangeInts_reverse (a c : Int) (L : Nat) :
+    (rangeInts a c L).reverse = rangeInts (a + ((L : Int) - 1) * c) (-c) L := by
+  apply List.ext_getElem (by simp)
+  intro k h1 h2
+  have hk : k < L := by simpa using h1
+  rw [List.getElem_reverse, rangeInts_getElem, rangeInts_getElem]
+  simp only [rangeInts_length]
+  have : ((L - 1 - k : Nat) : Int) = (L : Int) - 1 - k := by omega
+  rw [this]
+  grind
+
+theorem rangeLen_one (a b : Int) : rangeLen a b 1 = (b - a).toNat := by
+  unfold rangeLen
+  simp only [show ¬ ((1 : Int) < 0) by omega, if_false, Int.ediv_one]
+  split <;> omega
+
+theorem rangeLen_self (a c : Int) : rangeLen a a c = 0 := by
+  unfold rangeLen; simp
+
+theorem rangeLen_eq_zero_pos {a b c : Int} (hc : 0 < c) (h : b ≤ a) : rangeLen a b c = 0 := by
+  unfold rangeLen
+  simp only [show ¬ (c < 0) by omega, if_false, show ¬ (a < b) by omega]
+
+theorem rangeLen_eq_zero_neg {a b c : Int} (hc : c < 0) (h : a ≤ b) : rangeLen a b c = 0 := by
+  unfold rangeLen
+  simp only [hc, if_true, show ¬ (b < a) by omega, if_false]
+
+/-- list helpers -/
+theorem filterMap_of_map_eq_some {α β} (f : α → Option β) :
+    ∀ (xs : List α) (ys : List β), xs.map f = ys.map some → xs.filterMap f = ys
+  | [], ys, h => by
+      cases ys with
+      | nil => rfl
+      | cons y ys => simp at h
+  | x :: xs, ys, h => by
+      cases ys with
+      | nil => simp at h
+      | cons y ys =>
+        simp only [List.map_cons, List.cons.injEq] at h
+        rw [List.filterMap_cons_some h.1, filterMap_of_map_eq_some f xs ys h.2]
+
+theorem map_eq_map_some_of_filterMap {α β} (f : α → Option β) (xs : List α)
+    (h : ∀ x ∈ xs, (f x).isSome) : xs.map f = (xs.filterMap f).map some := by
+  induction xs with
+  | nil => rfl
+  | cons x xs ih =>
+    have hx := h x (by simp)
+    obtain ⟨y, hy⟩ := Option.isSome_iff_exists.mp hx
+    rw [List.filterMap_cons_some hy, List.map_cons, List.map_cons, hy,
+      ih (fun z hz => h z (by simp [hz]))]
+
+theorem map_getElem?_range {α} (l : List α) : (List.range l.length).map (l[·]?) = l.map some := by
+  apply List.ext_getElem (by simp)
+  intro k h1 h2
+  simp
+
+namespace PySlice
+
+theorem indices_none (n : Nat) : (⟨none, none, none⟩ : PySlice).indices n = (0, (n : Int), 1) := by
+  simp [indices, stepVal]
+
+theorem indices_rev (n : Nat) :
+    (⟨none, none, some (-1)⟩ : PySlice).indices n = ((n : Int) - 1, -1, -1) := by
+  simp [indices, stepVal]
+
+theorem sel_none (n : Nat) : (⟨none, none, none⟩ : PySlice).sel n = List.range n := by
+  unfold sel
+  rw [indices_none]
+  simp only [rangeLen_one]
+  apply List.ext_getElem (by simp)
+  intro k h1 h2
+  simp [rangeInts]
+
+theorem sel_rev (n : Nat) : (⟨none, none, some (-1)⟩ : PySlice).sel n = (List.range n).reverse := by
+  unfold sel
+  rw [indices_rev]
+  have hl : rangeLen ((n : Int) - 1) (-1) (-1) = n := by
+    apply nat_eq_of_lt_iff
+    intro k
+    rw [lt_rangeLen_neg (by omega)]
+    omega
+  simp only [hl]
+  apply List.ext_getElem (by simp)
+  intro k h1 h2
+  have hk : k < n := by simpa using h1
+  simp only [List.getElem_map, rangeInts_getElem, List.getElem_reverse, List.getElem_range,
+    List.length_range]
+  omega
+
+theorem apply_none {α} (l : List α) : (⟨none, none, none⟩ : PySlice).apply l = l := by
+  unfold apply
+  rw [sel_none]
+  exact filterMap_of_map_eq_some _ _ _ (map_getElem?_range l)
+
+theorem apply_rev {α} (l : List α) : (⟨none, none, some (-1)⟩ : PySlice).apply l = l.reverse := by
+  unfold apply
+  rw [sel_rev]
+  apply filterMap_of_map_eq_some
+  rw [List.map_reverse, List.map_reverse, map_getElem?_range]
+
+theorem apply_range (s : PySlice) (n : Nat) (hv : s.Valid) : s.apply (List.range n) = s.sel n := by
+  unfold apply
+  apply filterMap_of_map_eq_some
+  simp only [List.length_range]
+  apply List.map_congr_left
+  intro i hi
+  have := sel_lt s n hv i hi
+  simp [this]
+
+end PySlice
+end Nb
